@@ -309,6 +309,19 @@ def run_any(d, op, kw, args):
     return res, B.snapshot()
 
 
+class LegalBuildRejected(Exception):
+    pass
+
+
+def build_legal(col, pid, spec, plain, rp):
+    """Build a DAG the generator knows to be legal; a rejection is a verdict, not a harness crash."""
+    try:
+        return S.build_tawazi(spec, plain=plain)
+    except BaseException as e:  # noqa: BLE001
+        col.violation(pid, "legal_dag_rejected_when_built", dict(exc=type(e).__name__, msg=str(e)[:300], source=rp.get("source")), rp)
+        raise LegalBuildRejected() from e
+
+
 def dbg_shape(col, pid, rng, n, edges):
     from tawazi.config import cfg
 
@@ -356,7 +369,7 @@ def dbg_shape(col, pid, rng, n, edges):
             outs = {}
             for flag in (False, True):
                 cfg.RUN_DEBUG_NODES = flag
-                d, _e, _p = S.build_tawazi(spec, plain=plain)
+                d, _e, _p = build_legal(col, pid, spec, plain, rp)
                 args = [Sym("arg", 5)]
                 res, log = run_any(d, op, kw, args if op != "setup" else [])
                 col.evaluations += 1
@@ -428,7 +441,7 @@ def dbg_shape(col, pid, rng, n, edges):
         if chains:
             j, k = rng.choice(chains)
             cfg.RUN_DEBUG_NODES = True
-            d, _e, _p = S.build_tawazi(spec, plain=plain)
+            d, _e, _p = build_legal(col, pid, spec, plain, rp)
             probes.State.faults = {ids[j]}
             try:
                 res, log = run_any(d, "call", {}, [Sym("arg", 6)])
@@ -533,14 +546,20 @@ def job_dbg(j):
     for q in range(j.get("random_shapes", 50)):
         n = rng.randint(2, j.get("nmax", 8))
         edges = [(a, b) for b in range(n) for a in range(b) if rng.random() < 0.3]
-        dbg_shape(col, pid, rng, n, edges)
+        try:
+            dbg_shape(col, pid, rng, n, edges)
+        except LegalBuildRejected:
+            continue
         if q % 5 == 2:
             dbg_nested(col, pid, rng, q)
     for n in j.get("exhaustive_n", []):
         shapes = list(all_shapes(n))
         for k, edges in enumerate(shapes):
             if k % j.get("nparts", 1) == j.get("part", 0):
-                dbg_shape(col, pid, rng, n, edges)
+                try:
+                    dbg_shape(col, pid, rng, n, edges)
+                except LegalBuildRejected:
+                    pass
                 col.counters["shapes_enumerated_n%d" % n] += 1
     return col.result()
 
@@ -549,7 +568,10 @@ def _replay_dbg(j, rp):
     col = Collector(max_per_mech=20)
     rng = random.Random(0)
     for _ in range(5):
-        dbg_shape(col, "C13", rng, rp["n"], [tuple(e) for e in rp["edges"]])
+        try:
+            dbg_shape(col, "C13", rng, rp["n"], [tuple(e) for e in rp["edges"]])
+        except LegalBuildRejected:
+            pass
     return col.result()
 
 
